@@ -218,3 +218,23 @@ def rejecting_edges(g):
                 continue        # && / || plumbing temporaries
             out.append(gd)
     return out
+
+
+def include_rules(P, rep, rule, modname, pred, what, floor):
+    """evaluate (part of) another property's rule module as part of this property's verdict: used where this property's
+    statement depends on a clause that lives in another contract (e.g. 'charges exactly the stated gas payment')."""
+    import importlib
+    from report import Report
+    mod = importlib.import_module('rules.' + modname)
+    sub = Report(modname.upper(), rep.tier)
+    mod.check(P, sub)
+    n = 0
+    for o in sub.obligations:
+        if not pred(o):
+            continue
+        n += 1
+        if o['ok']:
+            rep.ok(rule, '%s: %s' % (what, o['what']), o.get('site'))
+        else:
+            rep.bad(rule, '%s:%s' % (modname, o['key']), '%s — dependency broken: %s' % (what, o['what']), o.get('site'), o.get('detail'), o.get('witness'))
+    rep.floor('%s obligations (%s)' % (what, modname), n, floor)
